@@ -1,7 +1,7 @@
 (* C10 -- resolving packages and time conditions is exact bracketed substitution.
    expand / expand_tc model expand_packages / expand_time_conditions on the parse tree; time_condition_expansion is
    regenerated from TimeConditionTransformer. *)
-From Ahb Require Import Model.Prelude Model.Grammar Gen.Gen_grammar Model.Lex Gen.Gen_timecond Model.Resolve Proofs.C01_parse Proofs.C10_resolve.
+From Ahb Require Import Model.Prelude Model.Grammar Gen.Gen_grammar Model.Lex Gen.Gen_timecond Model.Resolve Proofs.C01_parse Proofs.C10_resolve Proofs.C01_lexprint Proofs.C01_print Proofs.C02_lexsound Proofs.C10_text.
 
 Theorem C10_expand_is_substitution : forall p e, all_known p e -> expand p e = Ok (subst p e).
 Proof. exact expand_is_substitution. Qed.
@@ -32,3 +32,13 @@ Theorem C10_timeconds :
   parse_cond ([40%N] ++ ub3_text ++ [41%N]) = Ok (flat ub3_tree).
 Proof. exact timeconds. Qed.
 Print Assumptions C10_timeconds.
+
+(* text level, as the property is worded: [l; trail] is the expression as written (any spelling, any white space), e any parse the
+   resolution admits for it, ptext the package texts; the resolver model's result is, modulo same-operator runs, what the parser model
+   returns for the text in which every known package [nP] / [nPn..m] is replaced by "(" ++ package text ++ ")" *)
+Theorem C10_textual_substitution : forall p ptext l trail its e,
+  table_of_texts p ptext -> all_known p e -> Forall ok_pair l -> all_ws trail = true ->
+  group (map (fun q => tok_of (snd q)) l) = Some its -> Rc its e ->
+  exists t', expand p e = Ok t' /\ parse_cond (subst_text ptext l trail) = Ok (flat t').
+Proof. exact resolver_is_textual_substitution. Qed.
+Print Assumptions C10_textual_substitution.
